@@ -50,8 +50,8 @@ pub fn fam_c14(n: usize, seed: u64) -> Vec<BytesCase> {
 }
 pub fn run_c14(c: &BytesCase) -> Result<(), String> { check_c14(&c.buf, c.sel, c.f1, c.f2) }
 /// C03: offsets / sizes / p_memsz around the 60-byte file's boundaries and around u64 overflow
-pub fn fam_c03(n: usize, seed: u64) -> Vec<BytesCase> { let mut r = Lcg(seed); let v = |r: &mut Lcg| [0u64, 1, 8, 52, 59, 60, 61, 7, 30, u64::MAX, u64::MAX - 59, 1 << 63][r.next(12) as usize]; (0..n).map(|_| BytesCase { buf: vec![], a: v(&mut r), b: v(&mut r), sel: 0, f1: r.next(4) == 0, f2: r.next(2) == 0 }).map(|mut c| { c.sel = c.f2 as u8; c }).collect() }
-pub fn run_c03(c: &BytesCase) -> Result<(), String> { check_c03_range(c.a, c.b, if c.f2 { 0 } else { c.b / 2 + 3 }, c.f1) }
+pub fn fam_c03(n: usize, seed: u64) -> Vec<BytesCase> { let mut r = Lcg(seed); let v = |r: &mut Lcg| [0u64, 1, 8, 52, 59, 60, 61, 7, 30, u64::MAX, u64::MAX - 59, 1 << 63, 12, 11, 13, 48, 40, 20][r.next(18) as usize]; (0..n).map(|_| BytesCase { buf: vec![], a: v(&mut r), b: v(&mut r), sel: 0, f1: r.next(4) == 0, f2: r.next(2) == 0 }).map(|mut c| { c.sel = c.f2 as u8; c }).collect() }
+pub fn run_c03(c: &BytesCase) -> Result<(), String> { check_c03_range(c.a, c.b, if c.f2 { 0 } else { c.b / 2 + 3 }, c.f1)?; check_c03_compressed(c.a, c.b, c.f1) }
 /// C13/C16 iterators: the structured version sections of enumerate_symver, iterated from offsets 0 / 16 / 20 / 28 with their counts
 pub fn fam_c13i(n: usize, seed: u64) -> Vec<BytesCase> { let mut r = Lcg(seed ^ 0x5151); crate::slice_oracle::enumerate_symver(n, seed).into_iter().map(|s| { let defs = r.next(2) == 0; BytesCase { buf: if defs { s.def } else { s.need }, a: [0u64, 1, 2, 3, 200][r.next(5) as usize], b: [0u64, 0, 16, 20, 28, 32][r.next(6) as usize], sel: 0, f1: s.little, f2: defs } }).collect() }
 pub fn run_c13i(c: &BytesCase) -> Result<(), String> { check_c13_iter(&c.buf, c.a as u8, c.b as u8, c.f1, c.f2) }
